@@ -2,7 +2,11 @@ package badger
 
 import (
 	"context"
+	"errors"
 	"fmt"
+	"io/fs"
+	"os"
+	"path/filepath"
 
 	"github.com/dgraph-io/badger/v3"
 
@@ -33,7 +37,48 @@ type Provider interface {
 
 type ctxTxn struct{}
 
+const memTableExt = ".mem"
+
+// removeEmptyMemTables removes zero-length memtable files. A process killed while Badger creates
+// (open, then truncate to size) or deletes (truncate to zero, then unlink) a memtable file leaves
+// one behind; it holds no entries, but Badger refuses to open the database while it exists.
+func removeEmptyMemTables(dbPath string) error {
+	entries, err := os.ReadDir(dbPath)
+	if errors.Is(err, fs.ErrNotExist) {
+		return nil
+	}
+	if err != nil {
+		return fmt.Errorf("read dir: %w", err)
+	}
+
+	for _, e := range entries {
+		if e.IsDir() || filepath.Ext(e.Name()) != memTableExt {
+			continue
+		}
+
+		info, err := e.Info()
+		if err != nil {
+			return fmt.Errorf("file info: %w", err)
+		}
+		if info.Size() != 0 {
+			continue
+		}
+
+		err = os.Remove(filepath.Join(dbPath, e.Name()))
+		if err != nil {
+			return fmt.Errorf("remove: %w", err)
+		}
+	}
+
+	return nil
+}
+
 func New(dbPath string) (*Manager, error) {
+	err := removeEmptyMemTables(dbPath)
+	if err != nil {
+		return nil, fmt.Errorf("remove empty mem tables: %w", err)
+	}
+
 	db, err := badger.Open(badger.DefaultOptions(dbPath).WithLogger(nil))
 	if err != nil {
 		return nil, fmt.Errorf("badger open: %w", err)
